@@ -69,7 +69,7 @@ CHECKS = {
  "C14": dict(engine="symnp", category="other", design_ref="DESIGN.md §3 C14", technique=E1 + "; svd / nuclear norm / rank / eigenvalue kernels uninterpreted, svd contract for the Schmidt decomposition", note=NOTE_E1 + KERN,
    text="negativity / log_negativity = stated function of the nuclear-norm kernel of the oracle's own partial transpose (vector and density input, dim list/int/omitted); Schmidt decomposition: "
         "the SVD argument is the amplitude matrix and, under the svd contract, the factors rebuild the state (unequal local dims); schmidt_rank / sk_vector_norm / is_product arguments; "
-        "l1 coherence, purity, entropy, concurrence, entanglement of formation (pure branch) as formulas of the right kernel arguments. sk_operator_norm: the returned bounds are compared, by QF_NRA queries over all coefficient vectors, with the values attained on explicit families of Schmidt-rank-<=k vectors (13 operators, two of them with the optimum at a lower Schmidt rank). Operator Schmidt rank and the operator product test also for non-square local factors and scalar dim."),
+        "l1 coherence, purity, entropy, concurrence, entanglement of formation (pure branch) as formulas of the right kernel arguments. sk_operator_norm: the returned bounds are compared, by QF_NRA queries over all coefficient vectors, with the values attained on explicit families of Schmidt-rank-<=k vectors (15 operators, thorough 19, two of them with the optimum at a lower Schmidt rank). Operator Schmidt rank and the operator product test also for non-square local factors and scalar dim."),
  "C16": dict(engine="symnp", category="other", design_ref="DESIGN.md §3 C16", technique=E1 + "; eigenvalue / rank / Cholesky / null-space kernels uninterpreted with contracts", note=NOTE_E1 + KERN,
    text="Each tolerance predicate: residuals within atol/2 => True, beyond 2(atol+rtol*magnitude) => False, exact-by-construction => True, invariance under the property-preserving "
         "transformations; exact-equivalence predicates as iff formulas; kernel predicates as the stated function of the right kernel argument; vec/unvec, vec(AXB), tensor associativity and powers, "
